@@ -166,6 +166,7 @@ func c06Semantics(res *engine.Result, pre string, d psi.PmtDescriptor, want ref.
 type c06Want struct {
 	sec *ref.PMTSection
 	obs [][]string // per stream, per descriptor: observation of a descriptor built directly from (tag, body)
+	obsOnly bool // compare descriptor bodies through the observation strings only (no field semantics)
 }
 
 func c06MakeWant(sec *ref.PMTSection) *c06Want {
@@ -232,7 +233,9 @@ func c06VerifyStreams(res *engine.Result, pre string, got []psi.PmtElementaryStr
 			if o := c06Obs(ds[j]); o != w.obs[i][j] {
 				res.Failf(pre+"descriptor-body", "stream %d descriptor %d (tag %#x, body % x): decoders show %q, a descriptor of exactly that body shows %q", i, j, d.Tag, d.Body, o, w.obs[i][j])
 			}
-			c06Semantics(res, pre, ds[j], d)
+			if !w.obsOnly {
+				c06Semantics(res, pre, ds[j], d)
+			}
 		}
 	}
 }
@@ -1197,6 +1200,61 @@ func c06CheckHdr(c c06HdrCase) engine.Result {
 	return res
 }
 
+// ---- scenario "type-tag-product" --------------------------------------------------------------------------
+
+type c06ProdCase struct {
+	Type int `json:"stream_type"`
+}
+
+// one stream_type x every descriptor tag x 3 bodies in ONE stream entry (next to a plain second stream): what is
+// decoded must be what the section says, whatever the pair means to a helper that interprets either.
+func c06CheckProd(c c06ProdCase) engine.Result {
+	var res engine.Result
+	bodies := [][]byte{{}, []byte("eng\x00"), {0x44, 0x4F, 0x56, 0x49, 0x01, 0x10}}
+	for tag := 0; tag < 256; tag++ {
+		for bi, body := range bodies {
+			sec := ref.PMTSection{Program: 1, Version: byte(tag & 31), CurrentNext: true, PCRPID: 0x100, Streams: []ref.Stream{
+				{Type: byte(c.Type), PID: 0x100, Descs: []ref.Desc{{Tag: 0x0A, Body: []byte("fra\x01")}, {Tag: byte(tag), Body: body}}},
+				{Type: 0x1B, PID: 0x101}}}
+			if bi == 2 {
+				// the descriptor of interest first
+				d := sec.Streams[0].Descs
+				d[0], d[1] = d[1], d[0]
+			}
+			w := c06MakeWant(&sec)
+			w.obsOnly = true // bodies of any tag here: the field decoders are C20's business, identity of the body is ours
+			payload := append(ref.Pointer(0), sec.Bytes()...)
+			pre := "type-x-tag|body" + string(rune(0x30+bi)) + "|"
+			engine.Guard(&res, pre+"NewPMT", func() {
+				pmt, err := psi.NewPMT(payload)
+				if err != nil || pmt == nil {
+					res.Failf(pre+"NewPMT|error", "stream_type %#x tag %#x: %v", c.Type, tag, err)
+					return
+				}
+				c06Verify(&res, pre+"NewPMT|", pmt, w, true)
+			})
+			if bi == 0 || tag%16 == 10 {
+				padded := append(append([]byte{}, payload...), bytes.Repeat([]byte{0xFF}, 184-len(payload))...)
+				pkt := ref.CarryPayload(0x64, true, 3, padded)
+				engine.Guard(&res, pre+"ReadPMT", func() {
+					pmt, err := psi.ReadPMT(bytes.NewReader(pkt[:]), 0x64)
+					if err != nil || pmt == nil {
+						res.Failf(pre+"ReadPMT|error", "stream_type %#x tag %#x: %v", c.Type, tag, err)
+						return
+					}
+					c06Verify(&res, pre+"ReadPMT|", pmt, w, true)
+				})
+			}
+			if len(res.Fail) > 8 {
+				return res
+			}
+		}
+	}
+	res.Nontrivial = 256 * 3
+	res.Outcome(c.Type)
+	return res
+}
+
 // ---- model self-test against the vectors captured in psi/pmt_test.go -------------------------------------
 
 func c06Pre(r *engine.Run) {
@@ -1326,6 +1384,16 @@ func init() {
 					}
 				},
 				Check: c06CheckNest, Batch: 4,
+			},
+			&engine.Enum[c06ProdCase]{
+				Name: "type-tag-product",
+				Rule: "all 256 stream types x all 256 descriptor tags x 3 bodies (empty, a language body, a DOVI-like body; the descriptor second or first in the loop) within ONE stream entry, next to a language descriptor and a plain second stream: NewPMT (and ReadPMT from one packet for the empty body and every 16th tag) must report exactly the stream_type, PID, tags and bodies of the section, whatever the pair means to the stream-type or descriptor helpers",
+				Gen: func(r *engine.Run, emit func(c06ProdCase)) {
+					for t := 0; t < 256; t++ {
+						emit(c06ProdCase{t})
+					}
+				},
+				Check: c06CheckProd, Batch: 1,
 			},
 			&engine.Enum[c06HdrCase]{
 				Name: "table-header-codec",
